@@ -6,7 +6,8 @@ ID=$1; PATCH=$(realpath "$2"); TIER=${3:-quick}
 WT=$(mktemp -d /tmp/mut-XXXXXX)
 rmdir "$WT"
 git -C /repo worktree add --detach "$WT" HEAD >/dev/null 2>&1 || { echo "worktree failed"; exit 3; }
-trap 'git -C /repo worktree remove --force "$WT" >/dev/null 2>&1; rm -rf "$WT" /verif/.run/alt-*/bin/*' EXIT
+ALT=/verif/.run/alt-$(printf %s "$WT" | sha256sum | cut -c1-10)
+trap 'git -C /repo worktree remove --force "$WT" >/dev/null 2>&1; rm -rf "$WT" "$ALT"' EXIT
 git -C "$WT" apply "$PATCH" || { echo "patch does not apply"; exit 3; }
 cd /verif && VERIF_REPO="$WT" ./check "$ID" "$TIER"
 rc=$?
